@@ -187,10 +187,10 @@ def guard_rules(ctx):
     except Skip:
         pass
     # --- Poplar1 / IDPF
-    G(ctx, rule, dict(name="shard_with_random", self_adt="vdaf::poplar1::Poplar1", trait=""), "Ne", Call("len", Arg(3)), Field(Arg(1), "bits"), "Poplar1 shard: len(input) != bits -> Err")
+    G(ctx, rule, dict(name="shard_with_random", self_adt="vdaf::poplar1::Poplar1", trait=""), "Ne", Len(Arg(3)), Field(Arg(1), "bits"), "Poplar1 shard: len(input) != bits -> Err")
     G(ctx, rule, dict(name="eval", self_adt="idpf::Idpf"), "Gt", Arg(2), Lit(1), "Idpf::eval: agg_id > 1 -> Err")
     G(ctx, rule, dict(name="eval", self_adt="idpf::Idpf"), "Eq", Len(Arg(5)), Lit(0), "Idpf::eval: empty prefix -> Err")
-    G(ctx, rule, dict(name="eval", self_adt="idpf::Idpf"), "Gt", Call("len", Arg(5)), Bin("Add", Len(Field(Arg(3), "inner_correction_words")), Lit(1), commutative=True),
+    G(ctx, rule, dict(name="eval", self_adt="idpf::Idpf"), "Gt", Len(Arg(5)), Bin("Add", Len(Field(Arg(3), "inner_correction_words")), Lit(1), commutative=True),
       "Idpf::eval: len(prefix) > bits -> Err")
     G(ctx, rule, dict(name="gen", self_adt="idpf::Idpf"), "Eq", Len(Arg(2)), Lit(0), "Idpf::gen: empty input -> Err")
     # --- DP
